@@ -69,6 +69,13 @@ GUARDS = {
     # chmod the dirstate has not observed, the flag is stale and unshelving a text change of an
     # executable file (or of a file whose exec bit was changed) sets the wrong exec bit
     "exec_stale": True,
+    # ShelfCreator.shelve_deletion looks for a surviving copy of the deleted entry BY PATH
+    # (work_tree.has_filename(basis path)): when that path is taken by another versioned entry
+    # (old entry removed or renamed-and-lost, a new entry added at its path) or, for an entry
+    # that is versioned but missing, by anything at all, it re-uses the trans id of the
+    # occupant: MalformedTransform('versioning no contents') after the shelf file was already
+    # written, or the deletion silently stays in the tree
+    "delete_at_reoccupied_path": True,
 }
 ASSUMPTIONS = [
     "bzr (2a) trees only: git working trees raise ShelvingUnsupported",
@@ -174,20 +181,24 @@ def mix_text(old, new, take_old):
 
 
 def text_for(op, old):
-    """Content written by a 'write' op that carries a text recipe (pure)."""
+    """Content written by a 'write' op that carries a text recipe (pure).  `pad` lengthens the
+    first line of the first non-empty region the op writes."""
     tx, n = op["tx"], op["n"]
+    pad = tx.get("pad", 0)
+    shape = regions = None
     if "ed" in tx and old is not None:
         parsed = parse_text(old)
         if parsed is not None:
-            shape, regions = parsed
-            regions = list(regions)
-            first = True
-            for k, cnt in tx["ed"]:
-                regions[k] = region_lines(k, n, cnt, tx.get("pad", 0) if first else 0)
-                first = False
-            return build_text(shape, regions)
-    shape = tx.get("new") or dict(DEFAULT_SHAPE, cnt=[1, 1, 1, 1])
-    regions = [region_lines(k, n, shape["cnt"][k], tx.get("pad", 0) if k == 0 else 0) for k in range(NR)]
+            shape, regions = parsed[0], list(parsed[1])
+            todo = [(k, cnt) for k, cnt in tx["ed"]]
+    if regions is None:
+        shape = tx.get("new") or dict(DEFAULT_SHAPE, cnt=[1, 1, 1, 1])
+        regions = [[] for _ in range(NR)]
+        todo = [(k, shape["cnt"][k]) for k in range(NR)]
+    for k, cnt in todo:
+        regions[k] = region_lines(k, n, cnt, pad if cnt else 0)
+        if cnt:
+            pad = 0
     return build_text(shape, regions)
 
 
@@ -292,6 +303,8 @@ def shelve_model(m, sel, hunks, guards):
     for typ, fid in sorted(sel):
         if typ == "add":
             n = byid[fid]
+            if n["kind"] is None:
+                raise Unmodelled("added entry that is missing on disk (shelved as an empty file)")
             if n["kind"] == FILE:
                 exec_guard(n["exec"])
             n["ver"] = False
@@ -301,6 +314,8 @@ def shelve_model(m, sel, hunks, guards):
         _f, bkind, bdata, bexec = m.basis[bp]
         bpar = m.basis[T.parent(bp)][0]
         if typ == "delete":
+            if (bp in m.inv or (fid in wids and bp in m.disk)) and "delete_at_reoccupied_path" in guards:
+                raise Unmodelled("basis path of the deleted entry is taken", "delete_at_reoccupied_path")
             if fid in wids:
                 n = byid[fid]  # versioned, missing on disk
                 n["kind"], n["data"], n["exec"] = bkind, bdata, False
@@ -551,8 +566,14 @@ def enrich_write(rng, model, op):
         }
         tx = {"new": shape, "pad": 0}
     op["tx"] = tx
+    written = tx["ed"] if "ed" in tx else None
     while old is not None and len(text_for(op, old)) == len(old):
-        tx["pad"] += 1
+        if written is not None and not any(cnt for _k, cnt in written):
+            written[0][1] = 1  # nothing to pad: every region the op writes is empty
+        elif written is None and not any(tx["new"]["cnt"]):
+            tx["new"]["cnt"][0] = 1
+        else:
+            tx["pad"] += 1
     return op
 
 
